@@ -1,12 +1,187 @@
 package main
 
 import (
+	"flag"
 	"fmt"
-	"golang.org/x/tools/go/packages"
+	"os"
+	"runtime"
+	"sort"
+	"strings"
+	"time"
 )
 
+func usage() {
+	fmt.Fprintln(os.Stderr, `usage:
+  govc funcs   [-repo /repo] <name>...        verify the named functions (debugging)
+  govc check   [-repo /repo] -property Cxx [-tier quick|thorough] [-evidence file]
+  govc list    [-repo /repo]                  list functions under contract per property`)
+	os.Exit(2)
+}
+
 func main() {
-	cfg := &packages.Config{Mode: packages.LoadAllSyntax, Dir: "/repo", BuildFlags: []string{"-tags=verif"}}
-	pkgs, err := packages.Load(cfg, ".")
-	fmt.Println(len(pkgs), err)
+	if len(os.Args) < 2 {
+		usage()
+	}
+	cmd := os.Args[1]
+	fs := flag.NewFlagSet(cmd, flag.ExitOnError)
+	repo := fs.String("repo", "/repo", "repository root")
+	prop := fs.String("property", "", "property id")
+	tier := fs.String("tier", "quick", "quick|thorough")
+	evid := fs.String("evidence", "", "evidence file to write")
+	timeout := fs.Int("timeout", 0, "seconds per solver query")
+	keep := fs.Bool("keep", false, "keep SMT files")
+	verbose := fs.Bool("v", false, "verbose")
+	workdir := fs.String("workdir", "", "scratch directory for SMT files")
+	known := fs.String("known", "/verif/known_findings.txt", "known findings file")
+	replayDir := fs.String("replaydir", "/verif/replay", "directory for replay files")
+	noReplay := fs.Bool("noreplay", false, "do not replay counterexamples")
+	fs.Parse(os.Args[2:])
+	t0 := time.Now()
+	e, err := loadEngine(*repo)
+	if err != nil {
+		fmt.Fprintf(os.Stderr, "govc: %v\n", err)
+		os.Exit(3)
+	}
+	e.verbose = *verbose
+	e.jobs = runtime.NumCPU()
+	e.timeout = *timeout
+	if e.timeout == 0 {
+		e.timeout = 10
+		if *tier == "thorough" {
+			e.timeout = 60
+		}
+	}
+	wd := *workdir
+	if wd == "" {
+		wd, err = os.MkdirTemp("", "govc")
+		if err != nil {
+			fmt.Fprintf(os.Stderr, "govc: %v\n", err)
+			os.Exit(3)
+		}
+		if !*keep {
+			defer os.RemoveAll(wd)
+		}
+	}
+	e.workdir = wd
+	if *verbose {
+		fmt.Fprintf(os.Stderr, "loaded in %.1fs, %d functions, %d contracts\n", time.Since(t0).Seconds(), len(e.funcs), len(e.cs.Funcs))
+	}
+	switch cmd {
+	case "funcs":
+		code := e.cmdFuncs(fs.Args())
+		if !*keep {
+			os.RemoveAll(wd)
+		}
+		os.Exit(code)
+	case "list":
+		e.cmdList()
+	case "names":
+		var ns []string
+		for n := range e.funcs {
+			ok := len(fs.Args()) == 0
+			for _, a := range fs.Args() {
+				if strings.Contains(n, a) {
+					ok = true
+				}
+			}
+			if ok {
+				ns = append(ns, n)
+			}
+		}
+		sort.Strings(ns)
+		for _, n := range ns {
+			fmt.Println(n)
+		}
+	case "check":
+		code := e.cmdCheck(*prop, *tier, *evid, *known, *replayDir, !*noReplay, t0)
+		if !*keep {
+			os.RemoveAll(wd)
+		}
+		os.Exit(code)
+	default:
+		usage()
+	}
+}
+
+func (e *Engine) genFunc(name string) (*FnCtx, error) {
+	fn := e.funcs[name]
+	if fn == nil {
+		return nil, fmt.Errorf("function %q not found in the SSA program", name)
+	}
+	con := e.contractFor(fn)
+	fc := e.newFnCtx(fn, con)
+	if err := fc.generate(); err != nil {
+		return fc, err
+	}
+	fc.finalize()
+	return fc, nil
+}
+
+func (e *Engine) cmdFuncs(names []string) int {
+	var all []*Obligation
+	var expanded []string
+	for _, n := range names {
+		if strings.HasPrefix(n, "impl:") {
+			expanded = append(expanded, e.implsOf(n[5:])...)
+		} else {
+			expanded = append(expanded, n)
+		}
+	}
+	names = expanded
+	for _, n := range names {
+		fc, err := e.genFunc(n)
+		if err != nil {
+			fmt.Printf("ERROR %s: %v\n", n, err)
+			continue
+		}
+		for _, u := range fc.unsupported {
+			fmt.Printf("UNSUPPORTED %s: %s\n", n, u)
+		}
+		all = append(all, fc.obls...)
+	}
+	e.dischargeAll(all)
+	bad := 0
+	for _, ob := range all {
+		if ob.Status == "proved" || ob.Status == "trivial" {
+			if e.verbose {
+				fmt.Printf("%-8s %-60s %s %.2fs\n", ob.Status, ob.Name, ob.Solver, ob.Time)
+			}
+			continue
+		}
+		bad++
+		fmt.Printf("%-8s %-60s %s %.2fs  | %s\n", ob.Status, ob.Name, ob.Solver, ob.Time, ob.Src)
+		if ob.Model != "" && e.verbose {
+			fmt.Println(indent(ob.Model))
+		}
+	}
+	fmt.Printf("obligations=%d not-discharged=%d\n", len(all), bad)
+	for _, w := range sortedKeys(e.warnings) {
+		fmt.Println("WARNING", w)
+	}
+	for _, t := range e.toolErrors {
+		fmt.Println("TOOL-ERROR", t)
+	}
+	return 0
+}
+
+func indent(s string) string {
+	return "    " + strings.ReplaceAll(strings.TrimSpace(s), "\n", "\n    ")
+}
+
+func (e *Engine) cmdList() {
+	byProp := map[string][]string{}
+	for name, c := range e.cs.Funcs {
+		for _, t := range c.Tags {
+			byProp[t] = append(byProp[t], name)
+		}
+	}
+	var props []string
+	for p := range byProp {
+		props = append(props, p)
+	}
+	sort.Strings(props)
+	for _, p := range props {
+		sort.Strings(byProp[p])
+		fmt.Printf("%s (%d): %s\n", p, len(byProp[p]), strings.Join(byProp[p], " "))
+	}
 }
